@@ -145,3 +145,53 @@ pub fn length(meta: Result<MetaL, WalkErr>, file_name: &NameL, tpe: FileType) ->
     ensures r matches Some(l) ==> meta is Ok && meta->Ok_0.len == l,
             r is Some <==> (meta is Ok && meta->Ok_0.len <= u32::MAX),
 { unimplemented!() }
+
+// ---- the generic object-store adapter (OpenDALBackend): the operator as a map from keys to bytes ----
+pub struct PathS { pub key: Ghost<Key> }
+pub struct BufferS { pub data: Ghost<Seq<u8>> }
+impl BufferS {
+    #[verifier::external_body]
+    pub fn to_bytes(&self) -> (r: Bytes) ensures r.data@ == self.data@, { unimplemented!() }
+}
+pub struct ReadOptionsS { pub start: u64, pub end: u64 }
+// ReadOptions { range: range.into(), ..Default::default() }
+pub fn vread_options(range: core::ops::Range<u64>) -> (r: ReadOptionsS) ensures r.start == range.start, r.end == range.end, { ReadOptionsS { start: range.start, end: range.end } }
+pub struct OpErr { pub _opaque: u64 }
+pub struct VOperator { pub files: Ghost<Map<Key, Seq<u8>>> }
+impl VOperator {
+    // blocking Operator::read: the whole object
+    #[verifier::external_body]
+    pub fn read(&self, path: &PathS) -> (r: Result<BufferS, OpErr>)
+        ensures r matches Ok(b) ==> self.files@.dom().contains(path.key@) && b.data@ == self.files@[path.key@],
+    { unimplemented!() }
+    // blocking Operator::read_options with a byte range start..end: exactly that range; a range that does not lie inside
+    // the object (or with end < start) is an error (opendal's contract for a bounded range: ASSUMED)
+    #[verifier::external_body]
+    pub fn read_options(&self, path: &PathS, o: ReadOptionsS) -> (r: Result<BufferS, OpErr>)
+        ensures r matches Ok(b) ==> self.files@.dom().contains(path.key@) && o.start <= o.end <= self.files@[path.key@].len()
+            && b.data@ == self.files@[path.key@].subrange(o.start as int, o.end as int),
+    { unimplemented!() }
+}
+pub struct OpenDalIo { pub operator: VOperator }
+impl OpenDalIo {
+    // OpenDALBackend::path: "config" / data/<xx>/<hex> / <dirname>/<hex> (string building): the object of THIS key
+    #[verifier::external_body]
+    pub fn path(&self, tpe: FileType, id: &Id) -> (r: PathS) ensures r.key@ == norm(tpe, *id), { unimplemented!() }
+}
+pub struct VOperatorW { pub files: Ghost<Map<Key, Seq<u8>>> }
+impl BytesList {
+    #[verifier::external_body]
+    pub fn into_vec(self) -> (r: Vec<u8>) ensures r@ == self.data@, { unimplemented!() }
+}
+impl VOperatorW {
+    // blocking Operator::write: the object holds exactly these bytes afterwards; a failed write leaves it as it was
+    // (object stores publish an object atomically; for the fs service opendal writes to a temporary file first: ASSUMED)
+    #[verifier::external_body]
+    pub fn write(&mut self, path: &PathS, data: Vec<u8>) -> (r: Result<(), OpErr>)
+        ensures r is Ok ==> final(self).files@ == old(self).files@.insert(path.key@, data@), r is Err ==> final(self).files@ == old(self).files@,
+    { unimplemented!() }
+    #[verifier::external_body]
+    pub fn delete(&mut self, path: &PathS) -> (r: Result<(), OpErr>)
+        ensures r is Ok ==> final(self).files@ == old(self).files@.remove(path.key@), r is Err ==> final(self).files@ == old(self).files@,
+    { unimplemented!() }
+}
